@@ -51,7 +51,7 @@ def run_job(job):
         return out
     simples = simple_elements()
     for ci in range(job['n']):
-        kind = rng.choice(['sqrt', 'sqrt', 'powhalf', 'norm', 'normalized', 'exp', 'exp', 'exp'])
+        kind = rng.choice(['sqrt', 'sqrt', 'powhalf', 'norm', 'normalized', 'exp', 'exp', 'exp', 'expc'])
         eid = f"{job['prefix']}:{ci}"
         base = {'id': eid, 'kind': 'cert', 'cert': kind, 'raised': '', 'x': {'keys': [], 'coefs': []}, 'r': {'keys': [], 'coefs': []},
                 'X': {'keys': [], 'coefs': []}, 'F': {'keys': [], 'coefs': []}, 'N': 0, 'g': 1, 'tol': 0, 'vtype': 'float', 'sq': ''}
@@ -102,6 +102,30 @@ def run_job(job):
                     raise
                 except Exception as e:   # noqa: BLE001
                     base['raised'] = type(e).__name__
+            elif kind == 'expc':
+                # complex coefficients: x = (a + b i)/g * blade(s); the result is compared part by part
+                keys, w = rng.choice([s_ for s_ in simples if len(s_[0]) == 1])
+                g, N = 2, 8
+                z = rng.choice([(1, 1), (1, -1), (0, 1), (-1, 1), (1, 0)])
+                S = math.factorial(N) * g ** N
+                base.update({'cert': 'expc', 'X': {'keys': [int(k) for k in keys], 'coefs': [[z[0], z[1]]]}, 'N': N, 'g': g, 'vtype': 'complex',
+                             'sq': 'complex'})
+                norm1 = (abs(z[0]) + abs(z[1])) / g
+                base['tol'] = int(math.ceil((norm1 ** (N + 1)) / math.factorial(N + 1) * 4 * S)) + 2
+                x = MultiVector.fromkeysvalues(alg, keys, [complex(z[0], z[1]) / g])
+                r = None
+                try:
+                    r = x.exp()
+                except Exception as e:   # noqa: BLE001
+                    base['raised'] = type(e).__name__
+                if r is not None:
+                    fk, fv = [], []
+                    for k, v in zip(r.keys(), r.values()):
+                        v = complex(v)
+                        ok_ = v == v and abs(v) < 1e3
+                        fk.append(int(k))
+                        fv.append([int(round(v.real * S)), int(round(v.imag * S))] if ok_ else [2 ** 30, 2 ** 30])
+                    base['F'] = {'keys': fk, 'coefs': fv}
             else:
                 keys, w = rng.choice(simples)
                 g, N = rng.choice([(2, 8), (4, 6)])
